@@ -217,7 +217,13 @@ def coq_case_expr(case, res):
         if case.get("sweep"):
             starts = sc.clist(sc.cnat(i) for i in range(len(sh["vs"])))
             sweep = f"map (fun d => map (fun i => mql (mesh_queries {FUEL} T vs conn shc i [d])) {starts}) ds"
-        return (f"let T := {T} in let vs := {vs} in let conn := {conn} in let shc := {shc} in let ds := {ds} in "
+        seq = seq.replace(" T vs conn shc ", " mT mvs mconn mshc ").replace(" ds)", " mds)")
+        fresh = fresh.replace(" T vs conn shc ", " mT mvs mconn mshc ").replace(" ds", " mds")
+        sweep = sweep.replace(" T vs conn shc ", " mT mvs mconn mshc ").replace(" ds", " mds")
+        fv = "ov3l (first_vertex_mesh mT mvs)"
+        ce = f"v3l (center_mesh mT mvs {cm.fhex(float(len(sh['vs'])))})"
+        sh_model = "(match shortcut_connections mvs with Some l => l | None => [] end)"
+        return ([("mT", T), ("mvs", vs), ("mconn", conn), ("mshc", shc), ("mds", ds)],
                 f"({seq}, {fresh}, {fv}, {ce}, {sh_model}, {sweep})")
     items = []
     for d in case["dirs"]:
@@ -263,7 +269,7 @@ def coq_case_expr(case, res):
         T = sc.cpose(sh["R"], sh["t"])
         hl = sc.cv([0.5 * x for x in sh["size"]])
         extra = sc.clist(f"v3l (support_box {sc.cv(d)} {T} {hl})" for d in case["dirs"])
-    return f"({sc.clist(items)}, {fv}, {ce}, {extra})"
+    return [], f"({sc.clist(items)}, {fv}, {ce}, {extra})"
 
 
 # ---------------------------------------------------------------- uniqueness of the maximiser
@@ -381,13 +387,15 @@ def cert_jobs(case, r):
     spec = sc.to_spec(sh, m)
     bare = sc.to_spec(sh, None)
     labels, items = [], []
-    groups = [("sup", r["sup"], spec, "S")]
+    groups = [("sup", r["sup"], spec, "shS")]
     if sh["kind"] == "mesh":
-        groups.append(("fresh", r["fresh"], spec, "S"))
+        groups.append(("fresh", r["fresh"], spec, "shS"))
     if sh["kind"] == "box":
-        groups.append(("free_box", r["free_box"], bare, "B"))
+        groups.append(("free_box", r["free_box"], bare, "shB"))
     for name, answers, sp, var in groups:
         for i, (d, s) in enumerate(zip(case["dirs"], answers)):
+            if name == "fresh" and s == r["sup"][i]:
+                continue                 # the same point as the sequence answer: already certified
             if sc.finite(s) and len(s) == 3:
                 labels.append((name, i))
                 items.append(sc.support_cert_item(var, sp, s, d, tau))
@@ -395,9 +403,8 @@ def cert_jobs(case, r):
         p = r[name]
         if sc.finite(p) and len(p) == 3:
             labels.append((name, 0))
-            items.append(f"in_shape_tol B {narrow.wit_expr(bare, p)} {narrow.vq(p)} {tau}")
-    expr = f"let S := {narrow.sh_expr(spec)} in let B := {narrow.sh_expr(bare)} in [{'; '.join(items)}]"
-    return labels, expr
+            items.append(f"in_shape_tol shB {narrow.wit_expr(bare, p)} {narrow.vq(p)} {tau}")
+    return labels, ([("shS", narrow.sh_expr(spec)), ("shB", narrow.sh_expr(bare))], f"[{'; '.join(items)}]")
 
 
 # ---------------------------------------------------------------- the hypothesis of the mesh theorem, per input
@@ -638,8 +645,8 @@ def run(tier, seed, replay=None):
             R.notes.append(dict(certificate_construction_failed=f"{type(e).__name__}: {str(e)[:200]}", case_hash=cm.canon_hash(c)))
     cert = dict(submitted=sum(len(l) for _, l, _ in jobs), accepted=0, rejected_but_oracle_accepts=0, rejected_and_oracle_rejects=0)
     try:
-        outs = cm.coq_eval_lines(PID, sc.CERT_HEADER, [e for _, _, e in jobs], tag="cert",
-                                 per_file=max(2, len(jobs) // (cm.NCPU * 2) + 1), timeout=1500)
+        outs = sc.coq_eval_blocks(PID, sc.CERT_HEADER, [e for _, _, e in jobs], tag="cert",
+                                  per_file=max(2, len(jobs) // (cm.NCPU * 3) + 1), timeout=1500)
         rej = {}
         for (ci, labels, _), o in zip(jobs, outs):
             verdicts = [x.strip() == "true" for x in o.strip().strip("[]").split(";")] if o.strip() != "[]" else []
@@ -671,7 +678,7 @@ def run(tier, seed, replay=None):
     ndiff = 0
     stats = {}
     try:
-        outs = cm.coq_eval_lines(PID, sc.HEADER, exprs, per_file=max(4, len(exprs) // (cm.NCPU * 2) + 1))
+        outs = sc.coq_eval_blocks(PID, sc.HEADER, exprs, per_file=max(2, len(exprs) // (cm.NCPU * 3) + 1))
         for i, o in zip(idx, outs):
             m = sc.parse_coq_value(o)
             d = compare_case(cases[i], results[i], m, stats)
